@@ -28,6 +28,77 @@ pub struct ZRoot<'gc> {
     p: Lock<Option<Gc<'gc, ()>>>,
 }
 
+/// The cache itself, embedded in a derived struct behind a Gc, is the only thing kept.
+#[derive(Collect)]
+#[collect(no_drop)]
+pub struct Holder<'gc, const M: usize>
+where
+    Alignment<M>: ValidAlignment,
+{
+    pad: u8,
+    cache: ZstCache<'gc, M>,
+}
+
+#[derive(Collect)]
+#[collect(no_drop)]
+pub struct HRoot<'gc, const M: usize>
+where
+    Alignment<M>: ValidAlignment,
+{
+    holder: Gc<'gc, Holder<'gc, M>>,
+    direct: ZstCache<'gc, M>,
+}
+
+/// Keeping only the cache reachable (directly in the root, and inside a Gc'd struct) keeps the
+/// shared allocation alive: pointers handed out later must refer to live memory.
+pub fn cache_only_cell<const M: usize>() -> Cell1
+where
+    Alignment<M>: ValidAlignment,
+{
+    let name = format!("ZstCache<{M}> kept alive only through the cache itself");
+    let mut errs = Vec::new();
+    obs::begin_case();
+    {
+        let mut blocks: Vec<usize> = Vec::new();
+        let mut arena: Arena<Rootable![HRoot<'_, M>]> = Arena::new(|mc| {
+            obs::capture_on();
+            let c1 = ZstCache::<M>::new(mc);
+            let c2 = ZstCache::<M>::new(mc);
+            blocks = obs::capture_off();
+            HRoot { holder: Gc::new(mc, Holder { pad: 1, cache: c1 }), direct: c2 }
+        });
+        for b in &blocks {
+            obs::watch(*b, *b);
+        }
+        arena.finish_cycle();
+        arena.finish_cycle();
+        for (i, b) in blocks.iter().enumerate() {
+            if !obs::block_live(*b) {
+                errs.push(format!("{name}: the shared allocation of cache {i} ({}) was released while the cache is reachable", if i == 0 { "inside a Gc'd struct" } else { "directly in the root" }));
+            }
+        }
+        if errs.is_empty() {
+            arena.mutate(|mc, root| {
+                let p = root.holder.cache.alloc_static(mc, ());
+                let q = root.direct.alloc_static(mc, ());
+                if !root.holder.cache.is_cached(p) || !root.direct.is_cached(q) {
+                    errs.push(format!("{name}: unit value not answered with the shared pointer"));
+                }
+                let _u: () = *p;
+            });
+        }
+        let want = 3;
+        if arena.metrics().total_gc_count() != want {
+            errs.push(format!("{name}: {} allocations survive, expected {want} (holder + two shared allocations)", arena.metrics().total_gc_count()));
+        }
+    }
+    let end = obs::end_case();
+    for f in end.faults {
+        errs.push(format!("{name}: allocator: {f:?}"));
+    }
+    Cell1 { name, errors: errs, cached: true }
+}
+
 pub struct Cell1 {
     pub name: String,
     pub errors: Vec<String>,
